@@ -1,0 +1,17 @@
+//go:build verif
+
+// Contracts checked by /verif/gvc (contract-based deductive verification).
+// This file contains comments only; it is compiled only under the "verif" build tag.
+
+package config
+
+// C13 — "for every configuration the config validator accepts": what the validator guarantees is what the contracts of
+// the server (connectWithTimeOut, registerClient, addMsgToQueueLocked, the deliver handlers, …) take as preconditions
+// about the MQTT section: a receive maximum, a maximum packet size and an in-flight window that are not 0, a queue at
+// least as long as the window, a QoS of at most 2, a known delivery mode, and durations that are not negative (a negative
+// session or message lifetime has no meaning, and its conversion to seconds as an unsigned number is not defined).
+//@ func (MQTT).Validate
+//@ props C13
+//@ ensures [C13] result == nil ==> c.MaximumQoS <= 2 && c.MaxQueuedMsg > 0 && c.ReceiveMax != 0 && c.MaxPacketSize != 0 && c.MaxInflight != 0 && c.MaxQueuedMsg >= int(c.MaxInflight) && (c.DeliveryMode == "overlap" || c.DeliveryMode == "onlyonce")
+//@ ensures [C13] result == nil ==> c.SessionExpiry >= 0 && c.MessageExpiry >= 0 && c.InflightExpiry >= 0
+//@ ensures [C13] c.MaximumQoS <= 2 && c.MaxQueuedMsg > 0 && c.ReceiveMax != 0 && c.MaxPacketSize != 0 && c.MaxInflight != 0 && c.MaxQueuedMsg >= int(c.MaxInflight) && (c.DeliveryMode == "overlap" || c.DeliveryMode == "onlyonce") && c.SessionExpiry >= 0 && c.MessageExpiry >= 0 && c.InflightExpiry >= 0 ==> result == nil
